@@ -309,7 +309,7 @@ func (in *Interp) streamMethod(st *State, bv BufV, b *BufObj, name string, call 
 	var argv []Val
 	var argText []string
 	switch name {
-	case "Write", "WriteByte", "Read", "Next":
+	case "Write", "WriteByte", "Read", "Next", "ReadByte":
 		for _, a := range call.Args {
 			argv = append(argv, in.eval(st, a))
 			argText = append(argText, in.operand(st, a))
@@ -390,6 +390,20 @@ func (in *Interp) streamMethod(st *State, bv BufV, b *BufObj, name string, call 
 				}
 			}
 			return TupleV{Vs: []Val{IntV{n}, UnkV{"call:" + in.render(st, call) + ".1"}}}, true
+		}
+	case "ReadByte":
+		// one byte at the cursor; io.EOF when there is none: a nil error keeps the cursor inside the window
+		if b.Origin == "rstream" && len(call.Args) == 0 {
+			off := b.Len
+			in.addRead(&Rec{Off: off, W: Const(1), Kind: "byte", Pos: call.Pos()})
+			b.Len = off.AddC(1)
+			key := "err:ReadByte@" + in.w.Pos(call.Pos())
+			if st.ensures == nil {
+				st.ensures = map[string][]Fact{}
+			}
+			st.ensures[key] = []Fact{{L: b.Len, R: b.Extent, Src: "success of ReadByte at " + in.w.Pos(call.Pos())}}
+			val := setAtomMax(FromAtom(&Atom{Kind: "val", Path: "P[" + off.String() + "]"}), 255)
+			return TupleV{Vs: []Val{IntV{val}, ObjV{Path: key, Type: types.Universe.Lookup("error").Type()}}}, true
 		}
 	case "Next":
 		if b.Origin == "rstream" && len(call.Args) == 1 {
